@@ -11,6 +11,7 @@ import (
 	"os"
 	"path/filepath"
 	"runtime"
+	"runtime/pprof"
 	"sort"
 	"strconv"
 	"sync"
@@ -120,6 +121,11 @@ func New(id string) *Report {
 		}
 	}
 	r.deadline = r.start.Add(time.Duration(budget * float64(time.Second)))
+	if pp := os.Getenv("VERIF_PPROF"); pp != "" {
+		if f, err := os.Create(pp); err == nil {
+			pprof.StartCPUProfile(f)
+		}
+	}
 	return r
 }
 
@@ -277,6 +283,7 @@ func (r *Report) partial() Partial {
 
 // Finish writes the evidence (or a partial when VERIF_PARTIAL is set) and exits.
 func (r *Report) Finish() {
+	pprof.StopCPUProfile()
 	p := r.partial()
 	if path := os.Getenv("VERIF_PARTIAL"); path != "" {
 		b, _ := json.Marshal(p)
